@@ -56,7 +56,7 @@ def binary_loops(ctx):
         return subprocess.Popen(args, stdout=subprocess.DEVNULL, stderr=subprocess.DEVNULL)
 
     def wait_up(port):
-        for _ in range(100):
+        for _ in range(300):
             try:
                 socket.create_connection(("127.0.0.1", port), timeout=0.2).close()
                 return True
